@@ -889,9 +889,6 @@ class DBusObjectHandler :
             def send_error(err):
                 e = err.value
                 errMsg = err.getErrorMessage()
-                # the text must be a valid DBus string or the reply cannot be built
-                errMsg = errMsg.encode('utf-8', 'replace').decode('utf-8')
-                errMsg = errMsg.replace('\0', ' ')
                 name = None
 
                 if hasattr(e, 'dbusErrorName'):
@@ -905,6 +902,11 @@ class DBusObjectHandler :
                 except error.MarshallingError:
                     errMsg = ('!!(Invalid error name "%s")!! ' % name) + errMsg
                     name = 'org.txdbus.InvalidErrorName'
+
+                # the text (with a refused name quoted in it) must be a valid
+                # DBus string or the reply cannot be built
+                errMsg = errMsg.encode('utf-8', 'replace').decode('utf-8')
+                errMsg = errMsg.replace('\0', ' ')
 
                 r = message.ErrorMessage(name, msg.serial,
                                          body=[errMsg],
